@@ -299,6 +299,8 @@ def r5_8(ctx, rc):
                   'CreatedFiles.error_building_file', same_stop=False)
     ancestor_walk_rule(ctx, rc, 'CreatedFiles.started_building_file',
                        'CreatedFiles.error_building_file')
+    from .refcount import subfiles_rule
+    subfiles_rule(ctx, rc)
 
 
 def r5_9(ctx, rc):
